@@ -6,7 +6,7 @@ from pipes import stringview
 def run(tier, rep):
     stringview.pipeline(tier, rep)
     rep.assumptions += [
-        "characters are the codes {0, 97, 98, 200}: embedded null, ordinary letters and one code >= 128 stand for all characters",
+        "characters are the codes {0, 97, 98, 200}: embedded null, ordinary letters and one code >= 128 stand for all characters; wide instantiations map the model codes onto characters with colliding low bytes (wchar_t: 200->0x161, 98->0x100; char16_t: 200->0x100; char32_t: 200->0x10061, 98->0x100; order preserved), 1-byte types use the codes themselves",
         "exhaustive only inside the exported domain (haystack/needle length <= 4 quick, <= 5 thorough; every pos in 0..len+2 and npos; every count); longer strings (<= 64) are seeded random samples",
         "the TLA+ reading of [string.view] (declarative clauses, proven equal to operational scans by TLC) is calibrated against libstdc++ on the identical calls (zero deviations required)",
         "out-of-view reads are detected by result differences under two different surroundings of the buffers (every tier) and by ASan/UBSan on exact-size heap buffers (thorough tier); a read that neither changes a result nor leaves the heap block would go unnoticed in the quick tier",
